@@ -91,7 +91,7 @@ def body(t, src, cnt, deps, pdeps, prods, pprods, fails):
     try:
         ds = [int(Path(p).read_text()) for p in deps] + [int(npath(n).read_text()) for l in got for n in l]
         c = int(Path(cnt).read_text()) if cnt is not None else None
-        if fails:
+        if fails and fails != "late":
             raise RuntimeError(f"task {t} fails")
     except BaseException:
         log(f"X {t}")
@@ -108,6 +108,9 @@ def body(t, src, cnt, deps, pdeps, prods, pprods, fails):
                 p.write_text(str(F(t, 1000 * (j + 1) + o, src, ds)))
             elif p.exists():
                 p.unlink()
+    if fails == "late":
+        log(f"X {t}")
+        raise RuntimeError(f"task {t} fails after writing its products")
     log(f"E {t}")
 
 def gen_start(t, pdeps, fails, prods=(), src=0):
@@ -274,7 +277,8 @@ def _render_task(spec, t, ind: str, kid: bool) -> list[str]:
         L.append(f"{ind}@pytask.mark.persist")
     deco = []
     if kid:
-        deco.append(f"name={tname(t['id'])!r}")
+        # `alias`: the defined task takes the name of an existing task (6571c4f: the generator must fail)
+        deco.append(f"name={tname(t['alias'] if t.get('alias') is not None else t['id'])!r}")
     if t.get("gen"):
         deco.append("is_generator=True")
     if after_idents(t):
@@ -309,7 +313,7 @@ def _render_task(spec, t, ind: str, kid: bool) -> list[str]:
         L.append(f"{ind}    rt.log('E {t['id']}')")
     else:
         L.append(f"{ind}    return rt.body({t['id']}, SRC, {cnt}, [{', '.join(dep_names)}], [{', '.join(pd_args)}], "
-                 f"[{', '.join(prod_names)}], [{', '.join(pp_args)}], {bool(t.get('fails'))!r})")
+                 f"[{', '.join(prod_names)}], [{', '.join(pp_args)}], {(t.get('fails') if t.get('fails') == 'late' else bool(t.get('fails')))!r})")
     L.append("")
     return L
 
@@ -413,9 +417,9 @@ def model_lines(spec):
     lines = ["prov.reset"]
     for t in spec["tasks"]:
         lines.append(
-            f"prov.task id={t['id']} src={SRC_NODE} cnt={'none' if t.get('cnt') is None else t['cnt']} "
+            f"prov.task id={t['alias'] if t.get('alias') is not None else t['id']} src={SRC_NODE} cnt={'none' if t.get('cnt') is None else t['cnt']} "
             f"deps={','.join(map(str, t['deps']))} pdeps={_slots(spec, t['pdeps'])} prods={','.join(map(str, t['prods']))} "
-            f"pprods={_slots(spec, t['pprods'])} after={','.join(map(str, after_ids(spec, t)))} gen={1 if t.get('gen') else 0} fails={1 if t.get('fails') else 0} "
+            f"pprods={_slots(spec, t['pprods'])} after={','.join(map(str, after_ids(spec, t)))} gen={1 if t.get('gen') else 0} fails={1 if t.get('fails') and t.get('fails') != 'late' else 0} late={1 if t.get('fails') == 'late' and not t.get('gen') else 0} "
             f"parent={'none' if t.get('parent') is None else t['parent']} unc={1 if t.get('uncollectable') else 0}")
     for g, base in spec.get("perfile", {}).items():
         lines.append(f"prov.perfile gen={g} base={base}")
@@ -664,7 +668,7 @@ def gen_spec(rng, *, overlap_p=0.08, fail_p=0.06):
             t = {"id": new_tid(), "cnt": new_node(rng.randint(0, 6)) if rng.random() < 0.9 else None,
                  "deps": [new_node(rng.randint(1, 50))] if rng.random() < 0.5 else [], "pdeps": [],
                  "prods": [new_node()] if rng.random() < 0.25 else [], "pprods": [pid], "gen": False,
-                 "fails": rng.random() < fail_p / 2, "parent": None,
+                 "fails": rng.choice([True, "late"]) if rng.random() < fail_p else False, "parent": None,
                  "pstyle": rng.choice(["param", "return"]), "dstyle": "default"}
             tasks.append(t)
             produced.append(pid)
@@ -691,7 +695,7 @@ def gen_spec(rng, *, overlap_p=0.08, fail_p=0.06):
         if stat and rng.random() < 0.2:
             deps.append(rng.choice(stat))
         return {"id": new_tid(), "cnt": None, "deps": deps, "pdeps": pd, "prods": [new_node() for _ in range(rng.choice([1, 1, 1, 2, 0]))],
-                "pprods": [], "gen": False, "fails": rng.random() < fail_p, "parent": parent, "pstyle": "param",
+                "pprods": [], "gen": False, "fails": rng.choice([True, "late"]) if rng.random() < fail_p else False, "parent": parent, "pstyle": "param",
                 "dstyle": rng.choice(["default", "annotated"])}
 
     for _ in range(rng.choice([1, 1, 2, 2, 3])):
@@ -714,11 +718,16 @@ def gen_spec(rng, *, overlap_p=0.08, fail_p=0.06):
                 if rng.random() < 0.5:
                     k = consumer(parent=g["id"])
                 else:
-                    k = {"id": new_tid(), "cnt": None, "deps": [new_node(rng.randint(1, 50))] if rng.random() < 0.6 else [], "pdeps": [],
+                    # a plain defined task; it may depend on a product of a collected task (which may have failed before it is defined)
+                    up = [p for t in tasks for p in t["prods"] if t.get("parent") is None and not t["gen"]]
+                    k = {"id": new_tid(), "cnt": None,
+                         "deps": ([rng.choice(up)] if up and rng.random() < 0.45 else []) + ([new_node(rng.randint(1, 50))] if rng.random() < 0.5 else []), "pdeps": [],
                          "prods": [new_node()], "pprods": [], "gen": False, "fails": False, "parent": g["id"], "pstyle": "param",
                          "dstyle": "default"}
                 if rng.random() < 0.1:
                     k["uncollectable"] = True     # collection of this defined task fails: the generator itself must FAIL (f1fcb9a)
+                elif rng.random() < 0.08:
+                    k["alias"] = rng.choice([t["id"] for t in tasks if t.get("parent") is None])   # name of an existing task (6571c4f)
                 tasks.append(k)
     # a custom `name=` on the DirectoryNodes of some tasks (a label only: producer and consumer still share one node)
     for t in tasks:
